@@ -232,8 +232,9 @@ def conflict_check(tsc, cap, shape, what):
 _threads_seen = []
 
 
-def _run_parallel(tsc, pos, shape, box, d, offset, weights, nthread, capture):
-    """tsc_parallel on a float64 grid; returns (grid or None if rejected, captured args)"""
+def _run_parallel(tsc, pos, shape, box, d, offset, weights, nthread, capture, same_arrays=False):
+    """tsc_parallel on a float64 grid; returns (grid or None if rejected, captured args). The code under test gets a private copy of
+    `pos` unless same_arrays (then `pos` / `weights` themselves: the caller re-uses its buffers between calls)"""
     caps = []
     orig = tsc._tsc_parallel
 
@@ -254,7 +255,7 @@ def _run_parallel(tsc, pos, shape, box, d, offset, weights, nthread, capture):
         with warnings.catch_warnings():
             warnings.simplefilter('ignore')
             try:
-                grid = tsc.tsc_parallel(pos.copy(), grid, box, weights=weights, nthread=nthread, npartition=d['npartition'], sort=bool(d.get('sort')), coord=d['coord'], offset=offset, wrap=True)
+                grid = tsc.tsc_parallel(pos if same_arrays else pos.copy(), grid, box, weights=weights, nthread=nthread, npartition=d['npartition'], sort=bool(d.get('sort')), coord=d['coord'], offset=offset, wrap=True)
             except ValueError:
                 return None, caps
         if tuple(grid.shape) != tuple(shape):
@@ -313,6 +314,36 @@ def run_case(d):
     err = float(np.abs(grid - ref).max())
     if not (err <= (1e-10 if grid.dtype == np.float64 else 64 * float(np.finfo(np.float32).eps)) * tot):
         raise Violation('parallel-differs-from-serial', 'max |parallel - serial| = %g (total weight %g) for n1d=%d nthread=%d npartition=%r stripes=%d' % (err, tot, d['n1d'], d['nthread'], d['npartition'], nst))
+    # history: the caller re-uses its position / weight buffers for the next batch of particles (same array objects, new
+    # contents, same settings). The second deposit must be the deposit of the *new* contents.
+    buf = pos.copy()
+    wbuf = None if weights is None else weights.copy()
+    g1, _ = _run_parallel(tsc, buf, shape, box, d, offset, wbuf, d['nthread'], False, same_arrays=True)
+    if g1 is not None:
+        new = pos[::-1].astype(np.float64)
+        new[:, d['coord']] += 1.37 * box / d['n1d']
+        new[new >= box] -= box
+        newp = new.astype(pos.dtype)
+        newp[newp >= dt(box)] = 0
+        buf[...] = newp
+        if wbuf is not None:
+            wbuf[...] = weights[::-1] * dt(0.5) + dt(1)
+        neww = None if wbuf is None else wbuf.copy()
+        ok_range = True
+        for ax in range(3):
+            pmax = (float(np.max(newp[:, ax])) + offset) * shape[ax] / box
+            if pmax >= 2 * shape[ax] - 1.6 or (shape[ax] == 2 and pmax >= 2.4):
+                ok_range = False
+        if ok_range:
+            g2, _ = _run_parallel(tsc, buf, shape, box, d, offset, wbuf, d['nthread'], False, same_arrays=True)
+            ref2, _ = _run_parallel(tsc, newp, shape, box, dict(d1, gridkind='array'), offset, neww, 1, False)
+            if g2 is None or ref2 is None:
+                raise Violation('reused-buffers-rejected', 'a configuration accepted for the first batch was rejected for the second batch in the same buffers')
+            tot2 = float(np.abs(ref2).sum()) + 1e-30
+            err2 = float(np.abs(g2 - ref2).max())
+            if not (err2 <= (1e-10 if g2.dtype == np.float64 else 64 * float(np.finfo(np.float32).eps)) * tot2):
+                raise Violation('parallel-differs-from-serial:reused-buffers', 'second deposit from the same position/weight arrays (new contents): max |parallel - serial| = %g (total weight %g) for n1d=%d nthread=%d npartition=%r' % (err2, tot2, d['n1d'], d['nthread'], d['npartition']))
+            cls.append('reused-buffers')
     return {'classes': cls}
 
 
